@@ -311,7 +311,10 @@ def _tail(b, names):
             dst = S[(l[2], 'HH')]
             if 'GIFT' not in src.EquationBlock:
                 src.AddVariable('GIFT', 'Gift sent abroad', '0.1 * AfterTax')
-            m.RegisterCashFlow(src, dst, 'GIFT', is_income_source=l[3], is_income_dest=l[4])
+            if len(l) > 5 and l[5] == 'defaults':
+                m.RegisterCashFlow(src, dst, 'GIFT')          # documented defaults: income on both sides
+            else:
+                m.RegisterCashFlow(src, dst, 'GIFT', is_income_source=l[3], is_income_dest=l[4])
         elif l[0] == 'import':
             supplier = S[(l[1], 'BUS')]
             market = S[(l[2], 'GOOD')]
@@ -502,6 +505,7 @@ def _link_devs(pairs):
     for a, b in pairs:
         devs.append(('gift:%s>%s' % (a, b), (lambda l: (lambda s: _add_link(s, l)))(['gift', a, b, True, True])))
         devs.append(('giftni:%s>%s' % (a, b), (lambda l: (lambda s: _add_link(s, l)))(['gift', a, b, False, True])))
+        devs.append(('giftdef:%s>%s' % (a, b), (lambda l: (lambda s: _add_link(s, l)))(['gift', a, b, True, True, 'defaults'])))
         devs.append(('import:%s>%s' % (a, b), (lambda l: (lambda s: _add_link(s, l)))(['import', a, b])))
     return devs
 
